@@ -1,1 +1,68 @@
-fn main() { println!("{}", anoncreds::verif_hooks::encode_credential_attribute("007").unwrap()); }
+mod fam_c13;
+mod ffi;
+mod out;
+mod rng;
+
+use serde_json::{json, Value};
+use std::io::BufRead;
+
+fn arg(args: &[String], key: &str) -> Option<String> {
+    args.iter().position(|a| a == key).and_then(|i| args.get(i + 1).cloned())
+}
+
+/// implementation outcome of one case, whatever family generated it (also used by --replay)
+pub fn eval(case: &Value) -> Value {
+    let op = case["op"].as_str().unwrap_or("").to_string();
+    let r = std::panic::catch_unwind(std::panic::AssertUnwindSafe(|| match op.as_str() {
+        "enc" => fam_c13::eval(case),
+        _ => json!({"unknown_op": op}),
+    }));
+    match r {
+        Ok(v) => v,
+        Err(_) => json!({"panic": true}),
+    }
+}
+
+fn main() {
+    let args: Vec<String> = std::env::args().collect();
+    let fam = args.get(1).cloned().unwrap_or_default();
+    let seed: u64 = arg(&args, "--seed").and_then(|s| s.parse().ok()).unwrap_or(1);
+    let thorough = arg(&args, "--tier").map(|t| t == "thorough").unwrap_or(false);
+    let out_path = arg(&args, "--out").unwrap_or_else(|| "/dev/null".into());
+    std::panic::set_hook(Box::new(|_| {}));
+    let mut rng = rng::Rng::new(seed);
+    let mut out = out::Out::create(&out_path);
+    let cases: Vec<Value> = match fam.as_str() {
+        // re-evaluate the cases of a file (replay files, corpus files): one JSON case per line
+        "replay" => {
+            let path = arg(&args, "--in").expect("--in FILE");
+            let f = std::fs::File::open(path).expect("open --in");
+            std::io::BufReader::new(f)
+                .lines()
+                .filter_map(|l| l.ok())
+                .filter(|l| !l.trim().is_empty())
+                .map(|l| serde_json::from_str::<Value>(&l).expect("case json"))
+                .map(|mut c| {
+                    if let Some(o) = c.as_object_mut() {
+                        o.remove("impl");
+                    }
+                    c
+                })
+                .collect()
+        }
+        "c13" => fam_c13::gen(&mut rng, thorough, &mut out),
+        other => {
+            eprintln!("unknown family {other}");
+            std::process::exit(2);
+        }
+    };
+    for case in cases {
+        let imp = eval(&case);
+        out.write_case(case, imp);
+    }
+    let mut summary = out.finish();
+    summary["family"] = json!(fam);
+    summary["seed"] = json!(seed);
+    summary["unit_hooks"] = json!(cfg!(feature = "unit_hooks"));
+    println!("{}", summary);
+}
